@@ -76,6 +76,7 @@ PROPS["C06"] = dict(
              "queries_complete (top-level queries reported) is checked per case (clause 102)"],
     trusted_base=TIR_TB,
     assumptions=["Param::Set payloads are closed (sets_closed): true of lowered templates and of what apply_* inserts"],
+    keep_ids=lambda ids: [x for x in ids if x < 200],
     check_names={101: "unresolved value parameters found by the walk are reported by find_params",
                  102: "unresolved inputs found by the walk are reported by find_queries",
                  103: "after all stages and reduce the walk finds nothing",
@@ -88,13 +89,14 @@ PROPS["C07"] = dict(
     level="proof",
     runner="C07",
     model_files=["Base.v", "Assets.v", "Select.v", "Tir.v", "Reduce.v", "Walk.v"],
-    proof_files=["Assets_proofs.v", "Tir_proofs.v", "Reduce_proofs.v"],
+    proof_files=["Assets_proofs.v", "Tir_proofs.v", "Reduce_proofs.v", "Reduce_values.v"],
     check_files=["C06_check.v"],
-    theorems=["C07_args_fees_commute", "C07_args_inputs_commute", "C07_fees_inputs_commute", "C07_tx_stages_commute"],
-    partial=["idempotence of reduce and independence from the position of the compiler-op and reduce stages are checked on every schedule explored (clauses 201, 202) and by model/implementation agreement on each schedule, not yet theorems",
+    theorems=["C07_args_fees_commute", "C07_args_inputs_commute", "C07_fees_inputs_commute", "C07_tx_stages_commute", "C07_values_are_fixed_points"],
+    partial=["idempotence of reduce is proved for plain values (the shape of a fully applied and reduced template); for partially applied templates, and the independence from the position of the compiler-op and reduce stages, it is checked on every schedule explored (clauses 201, 202) and by model/implementation agreement on each schedule",
              "into_datum on a multi-UTxO set depends on hash-set order (pick oracle); generated sets carry one datum"],
     trusted_base=TIR_TB,
     assumptions=["schedules in which a compiler op's operand is not yet available end in a coercion error in model and implementation alike and are not compared"],
+    keep_ids=lambda ids: [x for x in ids if x < 100 or 200 <= x < 300],
     check_names={201: "all full schedules that end Ok give the same canonical TIR",
                  202: "reduce(reduce x) = reduce x on every intermediate"},
 )
@@ -210,9 +212,9 @@ PROPS["C02"] = dict(
                  112: "a native asset entry denotes a negative or >= 2^63 amount and compilation succeeded"},
 )
 PROPS["C08"] = dict(
-    level="proof", runner="C08", model_files=COMPILE_MODEL, proof_files=["Compile_proofs.v"], check_files=["Compile_check.v"],
-    theorems=["C08_sorted_inputs_perm", "C08_index_points_at_item", "C08_order_strict_total"],
-    partial=["that the insertion sort yields the ledger's order (sortedness) and the end-to-end map equality are checked per case (clause 201) against the specification-side map, not yet theorems"],
+    level="proof", runner="C08", model_files=COMPILE_MODEL, proof_files=["Compile_proofs.v", "Compile_sorted.v"], check_files=["Compile_check.v"],
+    theorems=["C08_sorted_inputs_perm", "C08_sorted_inputs_sorted", "C08_index_is_rank", "C08_index_points_at_item", "C08_order_strict_total"],
+    partial=["the end-to-end equality of the witness set's redeemer map with the specification-side map is checked per case (clause 201); the theorems cover the mechanism: the looked-up list is the sorted permutation of the body inputs and the index found is the item's rank in the ledger's order"],
     trusted_base=COMPILE_TB, assumptions=["distinct reward accounts per withdrawal directive in generated cases"],
     keep_ids=_only(lambda i: i in (1, 2, 121, 122) or 200 <= i < 300),
     classify=_cls({121: "many_utxo_input_with_redeemer", 122: "shared_policy_different_redeemers"}),
@@ -239,16 +241,16 @@ PROPS["C14"] = dict(
     partial=["panic-freedom of the code is as strong as the correspondence: the model predicts Panic exactly where its own sites are; any other panic of the implementation is a disagreement (clause 1); stack exhaustion and panics inside dependencies can only be observed"],
     trusted_base=COMPILE_TB, assumptions=[],
     keep_ids=_only(lambda i: i in (1, 2) or 140 <= i < 150),
-    check_names={141: "fixed-size hash from wrong-length bytes", 142: "textual utxo reference", 143: "missing script bytes", 144: "native script decode",
+    check_names={140: "the implementation panicked where the model has no panic site", 141: "fixed-size hash from wrong-length bytes", 142: "textual utxo reference", 143: "missing script bytes", 144: "native script decode",
                  145: "arithmetic overflow", 146: "Coerce::IntoScript todo!", 149: "other panic site of the model"},
 )
 
 PROPS["C11"] = dict(
     level="proof", runner="C11",
     model_files=["Base.v", "Assets.v", "Select.v", "Tir.v", "Reduce.v", "PlutusData.v", "Serde.v"],
-    proof_files=["PlutusData_proofs.v", "Serde_proofs.v"], check_files=["C11_check.v"],
-    theorems=["C11_decode_encode", "C11_wire_roundtrip", "C11_layout_distinguishes_constructors"],
-    partial=["the way back from the data model to the IR (serde-derive's Deserialize) is exercised on the implementation (decode, compare canonical forms, same parameters/queries, same result after identical application: clauses 101-103), not yet modelled; full injectivity of the layout is proved only at constructor level",
+    proof_files=["PlutusData_proofs.v", "Tir_proofs.v", "Serde_proofs.v", "Serde_back.v"], check_files=["C11_check.v"],
+    theorems=["C11_decode_encode", "C11_wire_roundtrip", "C11_expression_roundtrip", "C11_wire_expression_roundtrip", "C11_layout_distinguishes_constructors"],
+    partial=["the way back from the data model to the IR is modelled for expressions (Serde_back.of_cval) and proved to invert the layout; for whole transactions and for serde-derive's actual Deserialize it is exercised on the implementation (decode, compare canonical forms, same parameters/queries, same result after identical application: clauses 101-103)",
              "'decoding garbage never panics' is a statement about ciborium: observed on the malformed stream (clause 104)"],
     trusted_base=TB_COMMON + ["serde-derive's layout and ciborium's encoder are re-implemented in Serde.v and compared byte for byte with to_bytes on every case"],
     assumptions=["integers are i128; lengths below 2^64"],
@@ -299,9 +301,9 @@ PROPS["C18"] = dict(
 
 PROPS["C01"] = dict(
     level="proof", runner="C01",
-    model_files=FRONT_MODEL + ["PlutusData.v", "Interop.v", "Compile.v", "Denote.v"], proof_files=["C01_proofs.v"], check_files=["Compile_check.v", "C01_check.v"],
-    theorems=["C01_integer_arithmetic_exact", "C01_subtraction_associates_left"],
-    partial=["the unbounded theorem covers closed integer arithmetic; for the rest of the core (multi-asset arithmetic, names by context, records with spread, property access, mint/burn, validity, references, collateral, metadata) 'pipeline = denotation' is evaluated per generated program: the implementation's decoded transaction against Denote.v (clauses 101-108, 110), and against the composition of the stage models (clauses 1-4)",
+    model_files=FRONT_MODEL + ["PlutusData.v", "Interop.v", "Compile.v", "Denote.v"], proof_files=["Assets_proofs.v", "C01_proofs.v", "C01_args.v", "C01_assets.v"], check_files=["Compile_check.v", "C01_check.v"],
+    theorems=["C01_integer_arithmetic_exact", "C01_integer_parameters_exact", "C01_multi_asset_arithmetic_exact", "C01_multi_asset_denotation", "C01_subtraction_associates_left"],
+    partial=["the unbounded theorems cover integer arithmetic (closed and with integer parameters) and closed multi-asset arithmetic over asset constructors, at the level lower + apply_args + reduce = denotation; for the rest of the core (names by context, records with spread, property access, mint/burn, validity, references, collateral, metadata) and for the compile stage 'pipeline = denotation' is evaluated per generated program: the implementation's decoded transaction against Denote.v (clauses 101-108, 110), and against the composition of the stage models (clauses 1-4)",
              "the pest parser is not modelled: it is tied by printing the generator's tree in two layouts and comparing what the implementation builds from the text",
              "outputs whose denoted amount is negative or beyond the field's range are C02's recorded findings and are skipped by clause 102; which UTxO of a multi-UTxO script input carries the redeemer is C08's (F08-2)"],
     trusted_base=FRONT_TB + COMPILE_TB[3:],
@@ -320,7 +322,7 @@ PEG_TB = TB_COMMON + [
 ]
 PROPS["C12"] = dict(
     level="proof", runner="C12", uses_gen=True, model_files=["Base.v", "Peg.v", "gen/Grammar.v"], proof_files=["Peg_proofs.v"], check_files=["Peg_check.v"],
-    theorems=["C12_grammar_well_formed", "C12_matches_are_prefixes"],
+    theorems=["C12_grammar_well_formed", "C12_matches_are_prefixes", "C12_verdict_independent_of_fuel", "C12_verdict_unique"],
     partial=["the theorem about the current grammar is its well-formedness (no left recursion, no nullable repetition, no undefined rule), computed inside Coq on the generated grammar; that well-formedness implies termination of every run is the classical PEG result and is not re-proved here, the interpreter's fuel never ran out on any generated text (clause 1 fails otherwise)",
              "panic-freedom of the AST construction and of the analyzer is observed on the generated texts (clauses 121-123), not proved"],
     trusted_base=PEG_TB, assumptions=["texts up to 2500 bytes, nesting up to 64"],
